@@ -186,6 +186,15 @@ func (m *Machine) callBuiltin(caller *frame, fn *ssa.Builtin, args []value) valu
 	case "imag":
 		return args[0].(structure)[1]
 	case "close":
+		ch, _ := args[0].(*chanV)
+		if ch == nil {
+			panic(m.runtimePanic("close of nil channel"))
+		}
+		if ch.closed {
+			panic(m.runtimePanic("close of closed channel"))
+		}
+		ch.closed = true
+		m.yield("close")
 		return nil
 	case "String": // unsafe.String(ptr, len)
 		n := m.concreteInt(args[1], "unsafe.String len")
